@@ -587,9 +587,12 @@ func (s *Sim) crashLocked(inc *incarnation, kind string) {
 			}
 		}
 		return lost
-	})
+	}, func() bool { return s.tape.Draw(2) == 1 })
 	if err != nil {
 		s.res.Harness = "harness: cannot materialise crash image: " + err.Error()
+	}
+	if cs.shortTail > 0 {
+		s.res.Faults["file-tail-missing"] += int64(cs.shortTail)
 	}
 	ns.nextDir = dst
 	ns.image = cs
